@@ -274,7 +274,34 @@ def _bv(rng):
     return ["bv" + str(rng.randrange(cu.N_BAD_VAL))]
 
 
+def _randomise_styles(rng, toks):
+    """Give some of the grids a repeated point or an unsorted order (tag + 8 / + 16) where the sizes allow it."""
+    toks = list(toks)
+    i = 0
+    while i < len(toks):
+        if toks[i] == "da" and i + 2 < len(toks):
+            pts = cu.natvec(toks[i + 1])
+            if rng.random() < 0.3:
+                g = int(toks[i + 2]) % 8 + 8 * rng.choice([1, 2])
+                if cu.style_ok(pts, g):
+                    toks[i + 2] = str(g)
+            i += 3
+        elif toks[i] == "ia" and i + 1 < len(toks):
+            n = int(toks[i + 1])
+            for k in range(n):
+                j = i + 2 + 3 * k
+                if j + 2 < len(toks) and rng.random() < 0.25:
+                    g = int(toks[j + 2]) % 8 + 8 * rng.choice([1, 2])
+                    if cu.style_ok(cu.natvec(toks[j + 1]), g):
+                        toks[j + 2] = str(g)
+            i += 2 + 3 * n
+        else:
+            i += 1
+    return toks
+
+
 def _randomise_bad(rng, toks):
+    toks = _randomise_styles(rng, toks)
     return [("ba" + str(rng.randrange(cu.N_BAD_ARG))) if t == "ba" else ("bv" + str(rng.randrange(cu.N_BAD_VAL))) if t == "bv" else t for t in toks]
 
 
@@ -617,17 +644,38 @@ def apply_op(obj, toks, shadow):
 
 
 def _stand_is_normalisation(x):
-    """Are the standardised points numerically the normalisation of the sampling points?"""
+    """Are the standardised points numerically `(t - min) / (max - min)` of the sampling points, point by point
+    (same number of points, same order; irregular data: minimum / maximum over all observations)?  Computed
+    here with plain NumPy, not with the package's own `normalization`."""
     A, V, FD = cu._fd()
-    want, st = x.argvals.normalization(), x.argvals_stand
-    if type(want) is not type(st) or list(want.keys()) != list(st.keys()):
-        return False
-    for k in want:
-        if isinstance(want, A.IrregularArgvals):
-            if list(want[k].keys()) != list(st[k].keys()) or not all(np.array_equal(want[k][d], st[k][d], equal_nan=True) for d in want[k]):
-                return False
-        elif not np.array_equal(want[k], st[k], equal_nan=True):
+    a, st = x.argvals, x.argvals_stand
+    if isinstance(a, A.DenseArgvals):
+        if not isinstance(st, A.DenseArgvals) or list(a.keys()) != list(st.keys()):
             return False
+        for k, t in a.items():
+            t = np.asarray(t, dtype=float)
+            with np.errstate(all="ignore"):
+                want = (t - t.min()) / (t.max() - t.min()) if len(t) else t
+            if np.shape(st[k]) != np.shape(want) or not np.allclose(st[k], want, rtol=1e-12, atol=1e-15, equal_nan=True):
+                return False
+        return True
+    if not isinstance(st, A.IrregularArgvals) or list(a.keys()) != list(st.keys()):
+        return False
+    dims = {}
+    for d in a.values():
+        for k, t in d.items():
+            dims.setdefault(k, []).append(np.asarray(t, dtype=float))
+    lohi = {k: (min(t.min() for t in ts if len(t)), max(t.max() for t in ts if len(t))) for k, ts in dims.items() if any(len(t) for t in ts)}
+    for l, d in a.items():
+        if list(d.keys()) != list(st[l].keys()):
+            return False
+        for k, t in d.items():
+            lo, hi = lohi.get(k, (0.0, 0.0))
+            if hi == lo:
+                continue      # the code returns the one-point grid [0] there: sizes are judged by `stand_tracks`
+            want = (np.asarray(t, dtype=float) - lo) / (hi - lo)
+            if np.shape(st[l][k]) != np.shape(want) or not np.allclose(st[l][k], want, rtol=1e-12, atol=1e-15):
+                return False
     return True
 
 
@@ -972,6 +1020,54 @@ def _xop_run(case):
     return dict(out=out, state=cu.show_state(res), bad=check_obj(res, None) if ok_type else ["not_multivariate"], before_bad=steps[-1]["bad"] if steps else [])
 
 
+def _norm_cases(rng: Rng, n):
+    """`DenseArgvals.normalization` / the computed `argvals_stand` on grids with repeated points, unsorted grids,
+    large offsets and tiny spreads (exact dyadic values), through the dictionary, the constructor and the setter."""
+    from fractions import Fraction
+
+    for _ in range(n):
+        m = rng.randint(1, 7)
+        lo = rng.choice([0, 0, -3, 2000, 1048576, Fraction(-7, 2)])
+        sc = rng.choice([1, 1, Fraction(1, 64), 364, Fraction(1, 2**20)])
+        t = [lo + sc * rng.dyadic(0, 8, 3) for _ in range(m)]
+        how = rng.choice(["random", "sorted", "ties", "unsorted", "const"])
+        if how == "sorted":
+            t = sorted(set(t))
+        elif how == "ties" and m >= 2:
+            t = sorted(t)
+            t[rng.randrange(1, m)] = t[0] if rng.random() < 0.3 else t[rng.randrange(m)]
+        elif how == "unsorted":
+            rng.shuffle(t)
+        elif how == "const":
+            t = [t[0]] * m
+        yield dict(kind="norm", start="norm", t=[common.rs(x) for x in t], how=how)
+
+
+def _norm_run(case):
+    A, V, FD = cu._fd()
+    cu.quiet()
+    t = np.array([float(common.F(x)) for x in case["t"]])
+    out = {}
+
+    def rd(f):
+        try:
+            r = np.asarray(f(), dtype=float)
+            return ["nan"] if (r.size and np.all(np.isnan(r))) else r.tolist()
+        except Exception as e:  # noqa: BLE001
+            return "error:" + type(e).__name__
+
+    out["dict"] = rd(lambda: A.DenseArgvals({"input_dim_0": t}).normalization()["input_dim_0"])
+    out["ctor"] = rd(lambda: FD.DenseFunctionalData(A.DenseArgvals({"input_dim_0": t}), V.DenseValues(np.ones((2, len(t))))).argvals_stand["input_dim_0"])
+
+    def via_setter():
+        fd = FD.DenseFunctionalData(A.DenseArgvals({"input_dim_0": np.arange(len(t), dtype=float)}), V.DenseValues(np.ones((2, len(t)))))
+        fd.argvals = A.DenseArgvals({"input_dim_0": t})
+        return fd.argvals_stand["input_dim_0"]
+
+    out["setter"] = rd(via_setter)
+    return out
+
+
 def fnv(s: str) -> int:
     h = 14695981039346656037
     for b in s.encode():
@@ -1039,6 +1135,7 @@ def gen_cases(rng: Rng, tier):
     cases = [random_history(rng, rng.choice([5, 8, 12, 20, 40])) for _ in range(n)]
     cases += list(_bad_variant_cases())
     cases += list(_xop_cases(rng, 120 if tier == "quick" else 1500))
+    cases += list(_norm_cases(rng, 150 if tier == "quick" else 2000))
     if tier == "quick":
         cases += list(_exhaustive(2))
     else:
@@ -1071,11 +1168,15 @@ def run_impl(case):
         return _tree_run(case)
     if case["kind"] == "xop":
         return _xop_run(case)
+    if case["kind"] == "norm":
+        return _norm_run(case)
     _, steps = run_history(case["ops"])
     return dict(steps=steps)
 
 
 def model_lines(case, impl):
+    if case["kind"] == "norm":
+        return ["norm " + ",".join(case["t"])] if case["t"] else []
     if case["kind"] == "xop":
         return [f"xop {_guard()} " + " ".join(t for op in case["ops"] for t in op) + " | " + " ".join(case["xop"])]
     if case["kind"] == "tree":
@@ -1086,6 +1187,8 @@ def model_lines(case, impl):
 
 
 def parse_model(case, outs):
+    if case["kind"] == "norm":
+        return dict(raw=outs[0])
     if case["kind"] == "xop":
         if outs[0] in ("na", "bad"):
             return dict(out=outs[0], state="", inv="")
@@ -1109,6 +1212,21 @@ def compare(case, impl, model):
         return [f"implementation crashed: {impl['__crash__']} {impl.get('msg')}"]
     if model.get("error"):
         return [f"model could not parse the history: {model['error']}"]
+    if case["kind"] == "norm":
+        raw = model["raw"]
+        ds = []
+        for route in ("dict", "ctor", "setter"):
+            got = impl[route]
+            if raw == "nan":
+                if got != ["nan"] and not (isinstance(got, list) and len(got) == 0):
+                    ds.append(f"normalisation ({route}) of the constant grid {case['t']}: impl {got} vs model nan")
+            elif raw.startswith("ok "):
+                want = common.pvec(raw[3:])
+                if not isinstance(got, list) or got == ["nan"] or common.close_all(got, want, scale=1.0, rtol=1e-12) is not None:
+                    ds.append(f"normalisation ({route}) of {case['t']} ({case['how']}): impl {got} vs exact {[float(x) for x in want]}")
+            else:
+                ds.append("model answered " + raw)
+        return ds[:1]
     if case["kind"] == "xop":
         if model["out"] == "bad":
             return ["model could not parse the request"]
@@ -1250,6 +1368,23 @@ def oracle(case, impl):
         return [dict(clause="runs", entry="history", msg=f"crash {impl['__crash__']}: {impl.get('msg')} {impl.get('tb', '')[-300:]}")]
     if case["kind"] == "tree":
         return [dict(v) for v in impl["violations"]]
+    if case["kind"] == "norm":
+        # the property's relation, in plain NumPy: same number of points, same order, (t - min) / (max - min)
+        t = np.array([float(common.F(x)) for x in case["t"]])
+        vs = []
+        for route, entry in (("dict", "DenseArgvals.normalization"), ("ctor", "DenseFunctionalData"), ("setter", "argvals.setter")):
+            got = impl[route]
+            if isinstance(got, str):
+                vs.append(dict(clause="stand_recomputed", entry=entry, causes=["raises"], msg=f"normalising {case['t']} raised {got}"))
+                continue
+            if len(t) == 0 or t.max() == t.min():
+                continue
+            want = (t - t.min()) / (t.max() - t.min())
+            if got == ["nan"] or len(got) != len(want):
+                vs.append(dict(clause="stand_tracks", entry=entry, causes=[], msg=f"argvals_stand of the grid {case['t']} ({case['how']}) has {0 if got == ['nan'] else len(got)} points, the grid has {len(want)}"))
+            elif not np.allclose(got, want, rtol=1e-12, atol=1e-15):
+                vs.append(dict(clause="stand_recomputed", entry=entry, causes=[], msg=f"argvals_stand of the grid {case['t']} ({case['how']}) is {got}; pointwise (t - min)/(max - min) is {want.tolist()}"))
+        return vs
     if case["kind"] == "xop":
         # only the operations proved to preserve the invariant are judged; `mfd[i] = c` and `mfd += …` are
         # unguarded by design of `UserList` and outside the property's operation list (C11.xop_*_counterexample)
@@ -1282,6 +1417,8 @@ def nontrivial(case, impl):
         return digest(case) if len(set(impl["digests"])) > 1 else None
     if case["kind"] == "xop":
         return digest(case) if impl.get("out") not in ("na",) else None
+    if case["kind"] == "norm":
+        return digest(case) if len(set(case["t"])) > 1 else None
     outs = [s["out"] for s in impl["steps"]]
     if "ok" in outs[1:] and any(o not in ("ok", "na") for o in outs):
         return digest(case["ops"])
@@ -1294,6 +1431,8 @@ def classify(case, impl):
         return ["start:" + case["start"], "tree:576-continuations-of-length-2"]
     if case["kind"] == "xop":
         return ["xop:" + case["xop"][0] + ":" + str(impl.get("out"))]
+    if case["kind"] == "norm":
+        return ["norm:" + case["how"]]
     tags = ["start:" + str(case.get("start")), "len:" + ("1-4" if len(case["ops"]) <= 5 else "5-12" if len(case["ops"]) <= 12 else "13+")]
     if "__crash__" in impl:
         return tags + ["crash"]
